@@ -127,6 +127,12 @@ func ZVC31Check12V(c *Conn, helloVers uint16, ticket []byte, clientSuites []uint
 // suite; a nil clientSecrets[i] yields an all-zero binder; binders beyond
 // nBinders are dropped (to exercise the identities/binders length check).
 func ZVC31Check13(c *Conn, suiteID uint16, pskModes []uint8, labels [][]byte, clientSecrets [][]byte, nBinders int) (err error, usingPSK bool, selected uint16, didResume bool) {
+	return ZVC31Check13A(c, suiteID, pskModes, labels, nil, clientSecrets, nBinders)
+}
+
+// ZVC31Check13A is ZVC31Check13 with the obfuscated_ticket_age of every offered PSK identity given
+// (ages[i] for labels[i]; nil = all zero).  The ages are part of the hello the binders are computed over.
+func ZVC31Check13A(c *Conn, suiteID uint16, pskModes []uint8, labels [][]byte, ages []uint32, clientSecrets [][]byte, nBinders int) (err error, usingPSK bool, selected uint16, didResume bool) {
 	suite := cipherSuiteTLS13ByID(suiteID)
 	hello := &clientHelloMsg{
 		vers:               VersionTLS12,
@@ -137,8 +143,12 @@ func ZVC31Check13(c *Conn, suiteID uint16, pskModes []uint8, labels [][]byte, cl
 		supportedVersions:  []uint16{VersionTLS13},
 		pskModes:           pskModes,
 	}
-	for _, l := range labels {
-		hello.pskIdentities = append(hello.pskIdentities, pskIdentity{label: l})
+	for i, l := range labels {
+		id := pskIdentity{label: l}
+		if i < len(ages) {
+			id.obfuscatedTicketAge = ages[i]
+		}
+		hello.pskIdentities = append(hello.pskIdentities, id)
 		hello.pskBinders = append(hello.pskBinders, make([]byte, suite.hash.Size()))
 	}
 	binders := make([][]byte, len(labels))
